@@ -431,6 +431,22 @@ func (s *programState) getCachedBalance(account string, asset string) *big.Int {
 	return assetBalance
 }
 
+// The funds an account can still give in the current statement:
+// balance + overdraft, minus what the statement already pulled from it, never negative
+func (s *programState) availableFunds(account string, overdraft *big.Int) *big.Int {
+	balance := s.getCachedBalance(account, s.CurrentAsset)
+	available := new(big.Int).Add(balance, overdraft)
+	for _, sender := range s.Senders {
+		if sender.Name == account {
+			available.Sub(available, sender.Monetary)
+		}
+	}
+	if available.Sign() < 0 {
+		available.SetInt64(0)
+	}
+	return available
+}
+
 func (s *programState) sendAllToAccount(accountLiteral parser.ValueExpr, ovedraft *big.Int) (*big.Int, InterpreterError) {
 	account, err := evaluateExprAs(s, accountLiteral, expectAccount)
 	if err != nil {
@@ -443,10 +459,8 @@ func (s *programState) sendAllToAccount(accountLiteral parser.ValueExpr, ovedraf
 		}
 	}
 
-	balance := s.getCachedBalance(*account, s.CurrentAsset)
-
-	// we sent balance+overdraft
-	sentAmt := new(big.Int).Add(balance, ovedraft)
+	// we sent balance+overdraft (minus what this statement already pulled from the account)
+	sentAmt := s.availableFunds(*account, ovedraft)
 	s.pushSender(*account, sentAmt)
 	return sentAmt, nil
 }
@@ -530,10 +544,8 @@ func (s *programState) trySendingToAccount(accountLiteral parser.ValueExpr, amou
 		// unbounded overdraft: we send the required amount
 		actuallySentAmt = new(big.Int).Set(amount)
 	} else {
-		balance := s.getCachedBalance(*account, s.CurrentAsset)
-
 		// that's the amount we are allowed to send (balance + overdraft)
-		safeSendAmt := new(big.Int).Add(balance, overdraft)
+		safeSendAmt := s.availableFunds(*account, overdraft)
 		actuallySentAmt = utils.MinBigInt(safeSendAmt, amount)
 	}
 
